@@ -1,7 +1,7 @@
 // C01.b: single topological edit steps of edge_op.cpp from an ARBITRARY
 // halfedge structure satisfying the representation invariant I.
 #include "vf_harness.h"
-#include "/repo/src/edge_op.cpp"
+#include "edge_op.cpp"
 #include "c01_common.h"
 using namespace manifold;
 #ifndef VF_T
